@@ -5,6 +5,7 @@ from .. import pipegen as pg
 from ..case import Case
 from ..runner import Prop
 from .c01 import gen_cases
+from .. import timegen as tg
 
 
 class C02(Prop):
@@ -13,10 +14,13 @@ class C02(Prop):
     extra_modules = ("RxModel.Props.C02T",)
     design_ref = "DESIGN.md §6 C02"
     rule = ("the C01 case population with `unsub` injected at every position of the event script, followed by "
-            "the rest of the script and extra events on every hot input. Compared after the cut only. Oracle on "
+            "the rest of the script and extra events on every hot input; plus linear chains with every scheduler-using "
+            "operator (delay, observe_on, subscribe_on, delay_subscription, debounce, throttle, buffer_with_time, "
+            "buffer_with_count_and_time, interval, timer) on the virtual clock, unsubscribed at a random point and "
+            "then driven further (clock, timers, tasks in FIFO and arbitrary order). Compared after the cut only. Oracle on "
             "the implementation alone: every event after the cut delivers nothing. non-trivial = something was "
             "delivered before the cut.")
-    assumptions = ["synchronous catalogue here; scheduler-using operators are checked by the time-operator suites"]
+    assumptions = ["scheduler-using operators: linear chains on the virtual clock (suite `time`), correspondence + oracle"]
     modelled_not_verified = "all Rust code"
 
     def cases(self, tier, seed):
@@ -32,6 +36,18 @@ class C02(Prop):
                 d.events = c.events[:cut] + [["unsub"]] + c.events[cut:] + tail
                 d.meta = dict(c.meta, cut=cut)
                 out.append(d)
+        # scheduler-using operators: unsubscribe at a random point, then let time pass and the executor run
+        n = 5000 if tier == "quick" else 50000
+        for i in range(n):
+            src = tg.sources(rng, ["hot", "hot", "interval", "timer", "iter", "intervalat"])
+            pipe = tg.chain(rng, src, list(tg.TIME_OPS), rng.randint(1, 3), p_sync=0.25)
+            mode = "mixed" if i % 2 else "fifo"
+            evs = tg.events(rng, rng.randint(2, 10), hot=(src[0] == "hot"), mode=mode)
+            cut = rng.randint(1, len(evs))
+            tail = [["adv", str(rng.choice([1, 5, 10]))], ["run"], ["emit", "0", ["n", "99"]], ["adv", "20"], ["run"]]
+            evs = evs[:cut] + [["unsub"]] + evs[cut:] + tail
+            out.append(Case("time", rng.choice(["local", "threads"]), [("pipe", [pipe])], evs,
+                            {"kind": "time-" + mode, "cut": cut}))
         return out
 
     def _cut(self, case):
@@ -54,16 +70,27 @@ class C02(Prop):
                 continue
             if b == "PANIC":
                 return {"kind": "panic", "event": k, "detail": "implementation panicked"}
-            if b.startswith("o=") and b != "o=":
+            if b.startswith("o=") and b.split(" ")[0] != "o=":
                 return {"kind": "delivery-after-unsubscribe", "event": k, "detail": b}
         return None
 
     def nontrivial(self, case, lines):
         cut = self._cut(case)
-        return any(lines.get(k, "o=") not in ("o=",) for k in range(cut))
+        return any(lines.get(k, "o=").split(" ")[0] not in ("o=",) for k in range(cut))
 
     def shrink_candidates(self, case):
-        return [c for c in super().shrink_candidates(case) if any(e[0] == "unsub" for e in c.events)]
+        cands = tg.time_shrink(case) if case.suite == "time" else super().shrink_candidates(case)
+        return [c for c in cands if any(e[0] == "unsub" for e in c.events)]
+
+    def signature(self, case, failure):
+        if case.suite != "time":
+            return super().signature(case, failure)
+        node, hs = case.field("pipe")[0], []
+        while isinstance(node, list) and node:
+            hs.append(node[0])
+            node = node[-1] if isinstance(node[-1], list) and node[0] not in ("iter", "create") else None
+        ops = sorted(set(h for h in hs if h in tg.TIME_OPS))
+        return f"{failure['kind']}|time|{','.join(ops)}"
 
 
 PROP = C02()
